@@ -182,6 +182,8 @@ ACTIONS = [
     (r"^QUILL_SIGNAL_HANDLER_LOG\s*\(\s*logger\s*,\s*LogLevel::Info\s*,", ".logNotice"),
     (r"^QUILL_SIGNAL_HANDLER_LOG\s*\(\s*logger\s*,\s*LogLevel::Critical\s*,", ".logCritical"),
     (r"^logger\s*->\s*flush_log\s*\(\s*0\s*\)$", ".flush"),
+    # candidate repair of F27: the same request, but the wait ends when backend_thread_id becomes 0 (see flushEndsWhenBackendGone)
+    (r"^flush_log_while_backend_alive\s*\(\s*logger\s*\)$", ".flush"),
     (r"^std::exit\s*\(\s*EXIT_SUCCESS\s*\)$", ".exitSuccess"),
     (r"^std::signal\s*\(\s*signal_number\s*,\s*SIG_DFL\s*\)$", ".restoreDefault"),
     (r"^std::raise\s*\(\s*signal_number\s*\)$", ".reraise"),
@@ -328,6 +330,14 @@ def extract(repo, failures):
     # --- SignalHandler.h ---------------------------------------------------------------------------
     prog, calls = extract_on_signal(sh, failures)
     d["onSignalProg"] = prog
+    # does the handler's wait for its flush request end when the backend thread is gone? (current code: flush_log(0) waits for ever)
+    fw = func_body(sh, r"void\s+flush_log_while_backend_alive\s*\(\s*LoggerImpl<TFrontendOptions>\s*\*\s*logger\s*\)\s*\{")
+    uses_helper = any(re.match(r"^flush_log_while_backend_alive\(logger\)$", c_) for c_ in calls)
+    plain = any(re.match(r"^logger->flush_log\(0\)$", c_) for c_ in calls)
+    gives_up = bool(fw and len(re.findall(r"SignalHandlerContext::instance\(\)\.backend_thread_id\.load\(\)\s*==\s*0", fw)) >= 2)
+    if uses_helper and (plain or not gives_up):
+        failures.append("on_signal: flush_log_while_backend_alive is mixed with flush_log(0) or does not test backend_thread_id in both waits")
+    d["flushEndsWhenBackendGone"] = bool(uses_helper and not plain and gives_up)
     m = re.search(r"std::vector<int>\s+catchable_signals\s*\{([^}]*)\}", sh)
     names = [x.strip() for x in m.group(1).split(",") if x.strip()] if m else []
     if not m:
@@ -538,7 +548,7 @@ def extract(repo, failures):
     return d, "\n".join(L)
 
 
-_FALSE = ["alarmRestoresThenRaisesStored", "atexitStopsBackendThread", "emptyCheckCoversQueuesAndBuffers", "exitFlushesSinksWhenEmpty",
+_FALSE = ["flushEndsWhenBackendGone", "alarmRestoresThenRaisesStored", "atexitStopsBackendThread", "emptyCheckCoversQueuesAndBuffers", "exitFlushesSinksWhenEmpty",
           "exitHonoursWaitOption", "exitLoopShape", "initInstallsHandlers", "manualDtorCallsExit", "noticeMacroChecksLevelThenLogs",
           "onceFlagIsTheCurrentOne", "plainStartSpawnsThenRegistersAtexit", "runPollsThenExits", "runWaitsForRunningFlag",
           "shStartOrder", "startBackendThreadRuns", "startUsesOnceFlag", "stopBackendThreadStopsWorker", "stopStopsBackendThread",
